@@ -4,7 +4,19 @@ import (
 	stdjson "encoding/json"
 )
 
-var vfShape, vfWide, vfFlags int
+var vfShape, vfWide, vfFlags, vfRT int
+
+// symStr: a symbolic string of n bytes; in round-trip harnesses (vfRT) restricted to ASCII because invalid UTF-8 is
+// not preserved by any JSON encoder
+func symStr(n int) string {
+	s := vfString(n)
+	if vfRT != 0 {
+		for i := 0; i < n; i++ {
+			vfAssume(s[i] < 0x80)
+		}
+	}
+	return s
+}
 
 func wide(i int) bool { return (vfWide>>uint(i))&1 == 1 }
 
@@ -166,13 +178,13 @@ type jEmb struct {
 	Y string
 }
 
-type jEmbP struct {
+type JEmbP struct {
 	Z int8 `json:"z,omitempty"`
 }
 
 type jNested struct {
 	jEmb
-	*jEmbP
+	*JEmbP
 	In jEmb  `json:"in"`
 	Pn *jEmb `json:"pn"`
 	u  int
@@ -188,9 +200,21 @@ type jNumRaw struct {
 	R RawMessage `json:"r"`
 }
 
-type jMarshalerV struct{ b []byte }
+type jMarshalerV struct {
+	b    []byte
+	fail bool
+}
 
-func (m jMarshalerV) MarshalJSON() ([]byte, error) { return m.b, nil }
+type jFail struct{}
+
+func (jFail) Error() string { return "MarshalJSON failed" }
+
+func (m jMarshalerV) MarshalJSON() ([]byte, error) {
+	if m.fail {
+		return nil, jFail{}
+	}
+	return m.b, nil
+}
 
 type jTextV struct{ s string }
 
@@ -208,6 +232,7 @@ type jShape struct {
 	want    func(v any, escapeHTML bool) ([]byte, bool) // expected encoding/json output; ok=false: encoding/json fails
 	wantAlt func(v any, escapeHTML bool) []byte         // maps: the output with the members in the other order
 	ptr     func(v any) any                             // &v
+	newp    func() any                                  // pointer to a zero value
 }
 
 func refEmb(b []byte, v jEmb, esc bool) []byte {
@@ -219,8 +244,8 @@ func refEmb(b []byte, v jEmb, esc bool) []byte {
 }
 
 var jshapes = []jShape{
-	{name: "basic", ptr: func(v any) any { x := v.(jBasic); return &x },
-		mk: func() any { return jBasic{A: int(i64(0)), B: vfString(vfLen)} },
+	{name: "basic", ptr: func(v any) any { x := v.(jBasic); return &x }, newp: func() any { return new(jBasic) },
+		mk: func() any { return jBasic{A: int(i64(0)), B: symStr(vfLen)} },
 		want: func(x any, esc bool) ([]byte, bool) {
 			v := x.(jBasic)
 			b := append([]byte(nil), `{"a":`...)
@@ -231,7 +256,7 @@ var jshapes = []jShape{
 			}
 			return append(b, '}'), true
 		}},
-	{name: "ptrs", ptr: func(v any) any { x := v.(jPtrs); return &x },
+	{name: "ptrs", ptr: func(v any) any { x := v.(jPtrs); return &x }, newp: func() any { return new(jPtrs) },
 		mk: func() any {
 			v := jPtrs{D: vfBool()}
 			if vfBool() {
@@ -240,7 +265,7 @@ var jshapes = []jShape{
 			}
 			if vfBool() {
 				var q *int8
-				if vfBool() {
+				if vfRT != 0 || vfBool() { // a pointer to a nil pointer does not survive a round trip (it decodes to nil)
 					y := int8(vfByte())
 					q = &y
 				}
@@ -268,8 +293,8 @@ var jshapes = []jShape{
 			}
 			return append(b, '}'), true
 		}},
-	{name: "strtag", ptr: func(v any) any { x := v.(jStrTag); return &x },
-		mk: func() any { return jStrTag{E: vfByte(), F: int8(vfByte()), G: vfBool(), S: vfString(vfLen)} },
+	{name: "strtag", ptr: func(v any) any { x := v.(jStrTag); return &x }, newp: func() any { return new(jStrTag) },
+		mk: func() any { return jStrTag{E: vfByte(), F: int8(vfByte()), G: vfBool(), S: symStr(vfLen)} },
 		want: func(x any, esc bool) ([]byte, bool) {
 			v := x.(jStrTag)
 			b := append([]byte(nil), `{"e":"`...)
@@ -285,7 +310,7 @@ var jshapes = []jShape{
 			b = refQuote(b, string(inner), esc)
 			return append(b, '}'), true
 		}},
-	{name: "slices", ptr: func(v any) any { x := v.(jSlices); return &x },
+	{name: "slices", ptr: func(v any) any { x := v.(jSlices); return &x }, newp: func() any { return new(jSlices) },
 		mk: func() any {
 			v := jSlices{A: [2]uint8{vfByte(), 200}}
 			switch vfIntIn(0, 2) {
@@ -328,7 +353,7 @@ var jshapes = []jShape{
 			b = refUint(b, uint64(v.A[1]))
 			return append(b, `]}`...), true
 		}},
-	{name: "maps", hasMap: true, wantAlt: mapsWantAlt, ptr: func(v any) any { x := v.(jMaps); return &x },
+	{name: "maps", hasMap: true, wantAlt: mapsWantAlt, ptr: func(v any) any { x := v.(jMaps); return &x }, newp: func() any { return new(jMaps) },
 		mk: func() any {
 			v := jMaps{}
 			n := vfIntIn(0, 2)
@@ -336,7 +361,7 @@ var jshapes = []jShape{
 				v.M = map[string]int8{}
 			}
 			if n > 0 {
-				v.M[vfString(vfLen)] = int8(vfByte())
+				v.M[symStr(vfLen)] = int8(vfByte())
 			}
 			if n > 1 {
 				v.M["m"] = 5 // the symbolic key sorts before, after or replaces this one
@@ -383,14 +408,14 @@ var jshapes = []jShape{
 			}
 			return append(b, '}'), true
 		}},
-	{name: "nested", ptr: func(v any) any { x := v.(jNested); return &x },
+	{name: "nested", ptr: func(v any) any { x := v.(jNested); return &x }, newp: func() any { return new(jNested) },
 		mk: func() any {
 			v := jNested{jEmb: jEmb{X: int8(vfByte()), Y: "y"}, In: jEmb{X: 3}, u: 7, Sk: 9}
 			if vfBool() {
-				v.jEmbP = &jEmbP{Z: int8(vfByte())}
+				v.JEmbP = &JEmbP{Z: int8(vfByte())}
 			}
 			if vfBool() {
-				v.Pn = &jEmb{Y: vfString(vfLen)}
+				v.Pn = &jEmb{Y: symStr(vfLen)}
 			}
 			return v
 		},
@@ -400,9 +425,9 @@ var jshapes = []jShape{
 			b = refInt(b, int64(v.X))
 			b = append(b, `,"Y":`...)
 			b = refQuote(b, v.Y, esc)
-			if v.jEmbP != nil && v.jEmbP.Z != 0 {
+			if v.JEmbP != nil && v.JEmbP.Z != 0 {
 				b = append(b, `,"z":`...)
-				b = refInt(b, int64(v.jEmbP.Z))
+				b = refInt(b, int64(v.JEmbP.Z))
 			}
 			b = append(b, `,"in":`...)
 			b = refEmb(b, v.In, esc)
@@ -414,21 +439,25 @@ var jshapes = []jShape{
 			}
 			return append(b, '}'), true
 		}},
-	{name: "iface", ptr: func(v any) any { x := v.(jIface); return &x },
+	{name: "iface", ptr: func(v any) any { x := v.(jIface); return &x }, newp: func() any { return new(jIface) },
 		mk: func() any {
 			v := jIface{}
-			switch vfIntIn(0, 5) {
+			k := vfIntIn(0, 5)
+			if vfRT != 0 && (k == 1 || k == 3) {
+				k = 0 // numbers in interfaces decode to float64, whose text is an opaque stub
+			}
+			switch k {
 			case 1:
 				v.I = int(i64(0))
 			case 2:
-				v.I = vfString(vfLen)
+				v.I = symStr(vfLen)
 			case 3:
 				x := int8(vfByte())
 				v.I = &x
 			case 4:
 				v.I = []any{vfBool(), nil}
 			case 5:
-				v.I = map[string]any{"k": vfString(vfLen)}
+				v.I = map[string]any{"k": symStr(vfLen)}
 			}
 			return v
 		},
@@ -455,7 +484,7 @@ var jshapes = []jShape{
 			}
 			return append(b, '}'), true
 		}},
-	{name: "numraw", ptr: func(v any) any { x := v.(jNumRaw); return &x },
+	{name: "numraw", ptr: func(v any) any { x := v.(jNumRaw); return &x }, newp: func() any { return new(jNumRaw) },
 		mk: func() any {
 			v := jNumRaw{N: Number(vfString(vfLen))}
 			if vfBool() {
@@ -485,13 +514,13 @@ var jshapes = []jShape{
 			}
 			return append(b, '}'), true
 		}},
-	{name: "marsh", ptr: func(v any) any { x := v.(jMarsh); return &x },
+	{name: "marsh", ptr: func(v any) any { x := v.(jMarsh); return &x }, newp: func() any { return new(jMarsh) },
 		mk: func() any {
-			return jMarsh{M: jMarshalerV{b: vfBytes(vfLen)}, T: jTextV{s: vfString(vfLen)}}
+			return jMarsh{M: jMarshalerV{b: vfBytes(vfLen), fail: vfBool()}, T: jTextV{s: symStr(vfLen)}}
 		},
 		want: func(x any, esc bool) ([]byte, bool) {
 			v := x.(jMarsh)
-			if !refValid(v.M.b) {
+			if v.M.fail || !refValid(v.M.b) {
 				return nil, false
 			}
 			b := append([]byte(nil), `{"m":`...)
